@@ -101,3 +101,19 @@ mod env {
 pub fn all_main_commands() -> Vec<&'static str> {
     vec!["thanm", "thstd"]
 }
+
+/// Re-exports of private items for the external verification harness in /verif.
+///
+/// Only compiled with `--cfg truth_verif`; adds no behaviour.
+#[cfg(truth_verif)]
+#[doc(hidden)]
+pub mod verif_hooks {
+    /// The built-in (core) mapfile of a game/language, as loaded by the CLI's private `load_mapfiles`.
+    pub fn core_mapfile(
+        emitter: &crate::diagnostic::RootEmitter,
+        game: crate::Game,
+        language: crate::LanguageKey,
+    ) -> crate::Mapfile {
+        crate::core_mapfiles::core_mapfile(emitter, game, language)
+    }
+}
